@@ -82,4 +82,57 @@ pub(crate) fn vkc12_mat_reshape_6x1() {
   }
 }
 
-vk_registry!{ vkreplay_c12_mat; vkc12_mat_convert_same_shape, vkc12_mat_reshape_3x2, vkc12_mat_reshape_1x6, vkc12_mat_reshape_6x1 }
+// a DMatrix source that is none of the fixed shapes: the catch-all `(Matrix::DMatrix(v), n, m)` arm of create_reshape_mat_to_mat
+#[cfg_attr(kani, kani::proof)]
+#[cfg_attr(kani, kani::unwind(11))]
+#[cfg_attr(kani, kani::stub(alloc::fmt::format, fmt_stub))]
+#[cfg_attr(kani, kani::stub(mech_core::CompilerSourceRange::here, here_stub))]
+pub(crate) fn vkc12_mat_reshape_dyn_2x4_to_4x2() {
+  let s: Vec<u8> = vk::any_vec::<u8>(8);
+  let m = Matrix::DMatrix(Ref::new(DMatrix::from_vec(2, 4, s.clone())));
+  vk::reach();
+  match create_reshape_mat_to_mat::<u8, u16>(m, &[4, 2]) {
+    Ok(f) => { f.solve(); let out = f.out(); expect_u16(&out, 4, 2, &s); }
+    Err(_) => assert!(false, "VK: an equal-count reshape must succeed"),
+  }
+}
+
+// element-wise float -> integer conversion of a matrix: every element by the scalar rule (truncate toward zero, clamp, NaN -> 0)
+#[cfg_attr(kani, kani::proof)]
+#[cfg_attr(kani, kani::unwind(9))]
+#[cfg_attr(kani, kani::stub(alloc::fmt::format, fmt_stub))]
+#[cfg_attr(kani, kani::stub(mech_core::CompilerSourceRange::here, here_stub))]
+pub(crate) fn vkc12_mat_convert_f32_to_i8() {
+  let s: Vec<f32> = vk::any_vec::<f32>(6);
+  let m = Matrix::DMatrix(Ref::new(DMatrix::from_vec(2, 3, s.clone())));
+  vk::reach();
+  match create_convert_mat_to_mat::<f32, i8>(m, &[2, 3]) {
+    Ok(f) => {
+      f.solve();
+      match f.out() {
+        Value::MatrixI8(o) => {
+          let sh = o.shape();
+          assert!(sh[0] == 2 && sh[1] == 3, "VK: converted matrix keeps its shape");
+          let e = o.as_vec();
+          assert!(e.len() == 6, "VK: element count preserved");
+          let mut k = 0;
+          while k < 6 {
+            let x = s[k];
+            if x.is_nan() { assert!(e[k] == 0, "VK: NaN converts to 0"); }
+            else {
+              let t = (x as f64).trunc();
+              if t >= 127.0 { assert!(e[k] == i8::MAX, "VK: float to integer clamps to the target maximum"); }
+              else if t <= -128.0 { assert!(e[k] == i8::MIN, "VK: float to integer clamps to the target minimum"); }
+              else { assert!((e[k] as f64) == t, "VK: every element truncates toward zero, like the scalar conversion"); }
+            }
+            k += 1;
+          }
+        }
+        _ => assert!(false, "VK: conversion yields a matrix of the target kind"),
+      }
+    }
+    Err(_) => assert!(false, "VK: a supported conversion must succeed"),
+  }
+}
+
+vk_registry!{ vkreplay_c12_mat; vkc12_mat_convert_same_shape, vkc12_mat_reshape_3x2, vkc12_mat_reshape_1x6, vkc12_mat_reshape_6x1, vkc12_mat_reshape_dyn_2x4_to_4x2, vkc12_mat_convert_f32_to_i8 }
